@@ -115,7 +115,18 @@ def generate(seed, tier="quick"):
             events.append({"t": "cmp", "eid": f"e{k + 1}", "site": sid, "vals": [place(leaf, how)], "style": rng.choice(["assert", "rec"]), "reflect": rng.random() < 0.2})
     prog = {"files": [{"name": "test_a.py", "header": {}, "sites": sites, "tests": [{"name": "test_t", "events": events}]}], "pyproject": None}
     driver = "plugin" if sub(seed, "driver").random() < 0.1 else "inline"
-    return {"program": prog, "driver": driver, "fmt": draw_fmt(sub(seed, "fmt")), "flags": "create", "strict": True, "second": "update"}
+    flags = "create"
+    prng2 = sub(seed, "previous")
+    if prng2.random() < 0.35:
+        # the literal replaces an existing one (fix), possibly with non-ASCII text in the old literal / left of it on the line
+        flags = "create,fix"
+        for sid, s in sites.items():
+            if s["op"] == "eq" and prng2.random() < 0.7:
+                s["arg"] = prng2.choice(['"old"', "'x'", '"日本語"', '"naïve café"', '["ä", "old"]', '{"größe": 1}', "b'old'", '""'])
+        for e in events:
+            if prng2.random() < 0.4 and sites[e["site"]]["op"] == "eq":
+                e["uni"] = prng2.choice(["äöü", "日本", "é"])
+    return {"program": prog, "driver": driver, "fmt": draw_fmt(sub(seed, "fmt")), "flags": flags, "strict": True, "second": "update", "allow_raises": True}
 
 
 def execute(case, ctx):
